@@ -261,7 +261,7 @@ def check_case(ctx, case):
                               kf=kfkey if feat else None)
 
 
-HOSTILE = ["''", "' '", "'  two  blanks  '", "'CREATE TABLE x (y int);'".replace("(", "[").replace(")", "]"), "'--'", "'-- not a comment'", "'#'", "'# hash'",
+HOSTILE = ["'\"'", "'\"\"'", "''", "' '", "'  two  blanks  '", "'CREATE TABLE x (y int);'".replace("(", "[").replace(")", "]"), "'--'", "'-- not a comment'", "'#'", "'# hash'",
            "'a;b;c'", "';'", "'NOT NULL'", "'DEFAULT'", "'PRIMARY KEY'", "'it''s'", "''''''", "'UPPER lower MiXeD'", "'0'", "'007'", "'1e5'", "'-1'",
            "'a.b.c'", "'[x]'", "'{k: v}'", "'<tag>'", "'a|b&c'", "'50%'", "'$1.00'", "'x@y.z'", "'~'", "'a/b'", "'a * b'", "'?'", "'!'", "'references'", "'ON DELETE CASCADE'"]
 
